@@ -64,6 +64,18 @@ Definition stored_version (line : list Z) : list Z :=
   match banner_stored with BLine => line | BStripped => strip_comment line end.
 Definition run_banner (line : list Z) : list Z := stored_version line.
 
+(* ---- Transport.connect(hostkey=...): comparison of the verified server key with the pinned one -- *)
+(* name_differs = key.get_name() != hostkey.get_name(); blob_differs = key.asbytes() != hostkey.asbytes() *)
+Definition pin_rejects (name_differs blob_differs : bool) : bool :=
+  match pin_combine with PinOr => name_differs || blob_differs | PinAnd => name_differs && blob_differs end.
+(* connect: Ok tt = goes on to authenticate, Raise SSHExc = "Bad host key from server" *)
+Definition connect_pin (server_name pinned_name server_blob pinned_blob : list Z) : result unit :=
+  if pin_rejects (negb (zlist_eqb server_name pinned_name)) (negb (zlist_eqb server_blob pinned_blob))
+  then Raise SSHExc else Ok tt.
+Definition run_pin (c : list Z * list Z * list Z * list Z) : list Z :=
+  let '(a, b, x, y) := c in
+  match connect_pin a b x y with Ok _ => [0] | Raise e => [exn_code e] end.
+
 (* ---- Transport state touched by the exchange ------------------------------------------------ *)
 Inductive pyval := PInt (z : Z) | PBytes (b : list Z).
 
